@@ -76,13 +76,22 @@ pub fn c05(a: &Args, rep: &mut Report) {
         "known_findings.json lists the degenerate inputs / classes on which the pinned tree is known to fail (DESIGN section 7)".into(),
         "release build; the debug-assertion build runs the same workload as the 'relcheck' leg".into(),
     ];
+    if is_miri_leg(a) {
+        // the exact path including the big-integer back end under the UB interpreter
+        for k in 0..2 {
+            let c = miri_case(a.seed, k);
+            one_c05("C05", &c, rep);
+            rep.count("miri_inputs_run", 1);
+        }
+        return;
+    }
     let thorough = a.tier == "thorough";
     // exploration aid: VERIF_C05_PART=tie|corpus|hostile runs one part only
     let part = std::env::var("VERIF_C05_PART").ok();
     let on = |p: &str| part.as_deref().map_or(true, |x| x == p);
     let szs: Vec<usize> = if thorough { vec![1, 2, 3, 4, 5, 8, 13, 27, 50, 100, 200, 400] } else { vec![1, 2, 3, 4, 5, 8, 13, 27, 50, 100] };
     // (1) tie-rich conditioned families, seeded
-    let n = if on("tie") { ncases(a, 700, 20000) } else { 0 };
+    let n = if on("tie") { ncases(a, 3000, 60000) } else { 0 };
     run_parallel(rep, n, budget(a, 100., 900.), |k, rep| {
         let o = GenOpts {
             sizes: &szs,
